@@ -166,6 +166,15 @@ def enumerate_faults(doc: dict) -> list[dict]:
                 out.append({"piece": piece, "pos": pos, "schema": name})
         for piece in ALLOF_PIECES:
             out.append({"piece": piece, "pos": "schema-allof", "schema": name})
+        # a property whose inline class would get the NAME of another component ("Order" + property "item" next to a
+        # component "OrderItem"): the generator refuses it ("duplicate models" / "conflicting enums") - a bad piece of
+        # THIS schema; the component whose name it wanted is an unrelated bystander
+        for other in schemas:
+            suf = other[len(name):] if other != name and other.startswith(name) else ""
+            o_ = schemas[other]
+            if suf and suf[0].isupper() and suf[1:].islower() and suf.isalpha() and "allOf" not in s and isinstance(o_, dict) and (_is_object(o_) or "enum" in o_):
+                out.append({"piece": "inline-object-named-like-component", "pos": "schema-prop-collide", "schema": name, "other": other})
+                out.append({"piece": "inline-enum-named-like-component", "pos": "schema-prop-collide", "schema": name, "other": other})
     for opid, e in op_items(doc).items():
         for piece in OP_PIECES:
             if piece in ("optional-path-param",) and not _path_params(e):
@@ -211,6 +220,10 @@ def _path_params(e: dict) -> list[str]:
 
 class NotApplicable(Exception):
     pass
+
+
+def _norm(k: str) -> str:
+    return re.sub(r"[^a-z0-9]", "", str(k).lower())
 
 
 def apply_fault(doc: dict, f: dict, n: int = 0) -> tuple[dict, set[str], list[str]]:
@@ -273,6 +286,20 @@ def apply_fault(doc: dict, f: dict, n: int = 0) -> tuple[dict, set[str], list[st
                 if target is None:
                     target = {"type": "object", "properties": {}}
                     s["allOf"].append(target)
+            if pos == "schema-prop-collide":
+                other = f.get("other") or ""
+                if other not in schemas or not other.startswith(name) or not isinstance(schemas[other], dict) or not (_is_object(schemas[other]) or "enum" in schemas[other]):
+                    raise NotApplicable(other)
+                suf = other[len(name):]
+                pn = suf[0].lower() + suf[1:]
+                if any(_norm(k) == _norm(pn) for k in target.get("properties") or {}):
+                    raise NotApplicable("property name taken")
+                target.setdefault("properties", {})[pn] = ({"type": "object", "properties": {"inner": {"type": "string"}}} if piece.startswith("inline-object")
+                                                           else {"type": "string", "enum": ["collide_a", "collide_b"]})
+                # a clash of two names: which of the two the generator gives up (with a diagnostic) is its choice - both are
+                # inside the cone, and whatever is omitted or changed must be named like any other affected item
+                cone = reverse_closure(doc, {name, other})
+                return d, cone, []
             p = copy.deepcopy(SCHEMA_PIECES[piece])
             if pos == "schema-prop":
                 target.setdefault("properties", {})[bad] = p
@@ -514,6 +541,9 @@ def run_seed(args: dict, sandbox: str) -> dict:
     else:
         k = r.choice([1, 1, 1, 2, 2, 3, 4])
         fl = [r.choice(space) for _ in range(k)]
+        collide = [f_ for f_ in space if f_["pos"].endswith("-collide")]
+        if collide and r.random() < 0.15:
+            fl[0] = r.choice(collide)  # (a handful among hundreds of positions: drawn on purpose now and then)
         if r.random() < 0.05:
             fl = []  # fault-free configuration: D vs D
     a = rng.stream(seed, "args")
@@ -590,8 +620,11 @@ def run_spec(args: dict, sandbox: str) -> dict:
     cone: set[str] = set()
     must_name: list[tuple[dict, list[str]]] = []
     applied = []
+    overridden = set(((spec.get("config") or {}).get("class_overrides") or {}))
     for n, f in enumerate(spec["faults"]):
         try:
+            if f["pos"].endswith("-collide") and overridden & {f.get("schema"), f.get("other")}:
+                raise NotApplicable("a class_overrides entry renames one of the two: the derived names no longer clash")
             d2, c, names = apply_fault(d2, f, n)
         except NotApplicable:
             continue
